@@ -529,6 +529,7 @@ func runFamily(r *ev.Run, fam string, ncases, nshard int, describe func(i int) a
 					mu.Lock()
 					fr.guardOOM++
 					r.Distinct("guard_oom_cases", fmt.Sprintf("%s:%d", fam, at))
+					noteGuardOOM(fam, at, size, site(crashStack(ro.out)), describe(at))
 					mu.Unlock()
 				} else {
 					sig, what := classifyCrash(ro.out, ro.exitCode, ro.sig)
@@ -622,6 +623,25 @@ func oomBlock(out string) (int64, bool) {
 		return int64(n), true
 	}
 	return 0, true
+}
+
+// crashStack: the goroutine dump part of a crash output.
+func crashStack(out string) string {
+	if i := strings.Index(out, "goroutine "); i >= 0 {
+		return out[i:]
+	}
+	return ""
+}
+
+// noteGuardOOM appends a not-judged out-of-memory case to $VERIF_WORK/guard_oom_cases.jsonl (diagnostics only).
+func noteGuardOOM(fam string, at int, size int64, where string, c any) {
+	f, err := os.OpenFile(filepath.Join(workDir(), "guard_oom_cases.jsonl"), os.O_CREATE|os.O_WRONLY|os.O_APPEND, 0o644)
+	if err != nil {
+		return
+	}
+	defer f.Close()
+	b, _ := json.Marshal(map[string]any{"fam": fam, "i": at, "bytes": size, "site": where, "case": c})
+	f.Write(append(b, '\n'))
 }
 
 func crashText(out string) string {
